@@ -730,6 +730,8 @@ def _path_value(f, e, facts_by_id):
 
 def rule_X2(ctx):
     ctx.begin("X2", floor=3, what="successful returns of ex_region")
+    from ..bounds import path_states, helper_constraints
+    from .. import lin as _lin
     prog = ctx.prog
     f = prog.func("ex_region")
     cfg = f.cfg
@@ -738,88 +740,51 @@ def rule_X2(ctx):
         raise AnalysisBroken("ex_region no longer takes (loc, beg, end)")
     begp, endp = pn[1], pn[2]
     LEN = "lbuf_len(ex_lbuf())"
+
+    def inline(call, fn_=f):
+        # helpers of the same file that are handed the range (beg / end / *beg / *end)
+        g = prog.resolve(fn_, call.get("fn")) if call.get("fn") else None
+        if g is None or g.file != f.file or g.name == f.name:
+            return None
+        if not any(r_["name"] in (begp, endp) for a_ in call["args"] for r_ in refs(a_)):
+            return None
+        if len(list(g.walk())) > 400:
+            return None
+        return g
     # returns that may be 0: constant 0 or any non-constant value
     rets = [r for r in cfg.return_nodes() if cval(r.get("e")) in (0, None)]
     if not rets:
         raise AnalysisBroken("ex_region has no `return 0`")
     n_paths = 0
     for r in rets:
-        p = cfg.pos(r)
         try:
-            paths = paths_to(cfg, cfg.entry, r["id"], max_paths=5000)
+            sts = path_states(f, r["id"], init_hyps=[Lin({LEN: 1})], max_paths=5000, inline=inline)
         except OverflowError:
             raise AnalysisBroken("ex_region: too many paths")
         bad = None
-        for items in paths:
-            if not path_consistent(f, items):
-                continue
-            n_paths += 1
-            facts_by_id = {}
-            subst = {}
-            hyps = [Lin({LEN: 1})]          # lbuf_len >= 0
-            ren = None
-            for it in items:
-                if it[0] == "blk":
-                    continue
-                if it[0] == "br":
-                    c = f.nodes[it[1]]
-                    facts_by_id[c["id"]] = it[2]
-                    hyps += cmp_constraints(c, it[2], subst)
-                    from ..bounds import helper_constraints
-                    hyps += helper_constraints(f, c, it[2], subst)
-                else:
-                    n = f.nodes.get(it[1])
-                    if n is None:
-                        continue
-                    # any store to (or address-taking call on) a variable kills the facts that
-                    # mention it: `(*loc)` after `loc++` is another byte
-                    killed = set()
-                    if n["k"] == "un" and n["op"] in ("post++", "pre++", "post--", "pre--"):
-                        v = lv_var(n["e"])
-                        if v and not v[2]:
-                            killed.add(v[0])
-                    if n["k"] == "bin" and n["op"] in ("=", "+=", "-="):
-                        v = lv_var(n["l"])
-                        if v and not v[2]:
-                            killed.add(v[0])
-                    if n["k"] == "call":
-                        for a in n["args"]:
-                            a = strip_casts(a)
-                            if a["k"] == "un" and a["op"] == "&" and a["e"]["k"] == "ref":
-                                killed.add(a["e"]["name"])
-                    if killed:
-                        import re as _re
-                        pat = _re.compile(r"\b(%s)\b" % "|".join(_re.escape(x) for x in killed))
-
-                        def mentions_killed(h):
-                            l = h[1] if isinstance(h, tuple) else h
-                            return any(pat.search(a) for a in l.c)
-                        hyps = [h for h in hyps if not mentions_killed(h)]
-                    if n["k"] != "bin" or n["op"] != "=":
-                        continue
-                    lv = n["l"]
-                    if lv["k"] == "un" and lv["op"] == "*" and lv["e"]["k"] == "ref" \
-                            and lv["e"]["name"] in (begp, endp):
-                        nm = "(*%s)" % lv["e"]["name"]
-                        val = _path_value(f, n["r"], facts_by_id)
-                        lval = None
-                        if val is not None and val["k"] != "cond":
-                            lval = linearize(val, subst)
-                        else:
-                            # MAX(0, L) with L >= 0
-                            kv = key(val)
-                            if kv == "((0<%s)?%s:0)" % (LEN, LEN):
-                                lval = Lin({LEN: 1})
-                        if lval is None:
-                            lval = Lin({"?%d" % n["id"]: 1})
-                        # facts about the old value die: re-express by substitution
-                        subst[nm] = lval
-                        # drop hyps that mention the old atom
-                        hyps = [h for h in hyps if nm not in (h[1].c if isinstance(h, tuple) else h.c)]
-            if cval(r.get("e")) is None and r.get("e") is not None:
+        undecided = None
+        for subst, hyps, items in sts:
+            hyps = list(hyps)
+            e = r.get("e")
+            if cval(e) is None and e is not None:
                 # a computed status: the obligation is about the case in which it is 0
-                from ..bounds import helper_constraints
-                hyps += cmp_constraints(r["e"], False, subst) + helper_constraints(f, r["e"], False, subst)
+                byid = {f.nodes[x[1]]["id"]: x[2] for x in items if x[0] == "br"}
+                _lin._COND_RES[0] = byid
+                try:
+                    hyps += cmp_constraints(e, False, subst)
+                    ee = strip_casts(e)
+                    if ee["k"] == "call" and key(ee) not in subst:
+                        hc = helper_constraints(f, e, False, subst)
+                        hyps += hc
+                        g_ = prog.resolve(f, ee.get("fn")) if ee.get("fn") else None
+                        if not hc and g_ is not None:
+                            undecided = ("status computed by %s()" % g_.name, items)
+                            continue
+                finally:
+                    _lin._COND_RES[0] = None
+                if any(isinstance(h, Lin) and h.is_const() and h.k < 0 for h in hyps):
+                    continue                        # this exit of the helper is a failure
+            n_paths += 1
             B = subst.get("(*%s)" % begp) or Lin({"(*%s)" % begp: 1})
             E = subst.get("(*%s)" % endp) or Lin({"(*%s)" % endp: 1})
             L = Lin({LEN: 1})
@@ -827,7 +792,10 @@ def rule_X2(ctx):
             for gname, a, b in goals:
                 v = prove_le(a, b, hyps)
                 if v != PROVEN:
-                    bad = (gname, v, items)
+                    if "__havoc__" in subst:
+                        undecided = (gname, items)
+                    else:
+                        bad = (gname, v, items)
                     break
             if bad:
                 break
@@ -837,6 +805,9 @@ def rule_X2(ctx):
             ctx.violation("ex_region", "successful return validates the range",
                           "a path to `return 0` does not establish %s (%s): %s" % (gname, v, desc),
                           f.loc(r))
+        elif undecided:
+            ctx.inconclusive("ex_region", "successful return validates the range",
+                             "%s: not decided (no summary of a helper on the way)" % undecided[0], f.loc(r))
         else:
             ctx.ok("ex_region", "return 0 implies 0 <= beg <= end <= $", loc=f.loc(r))
     if n_paths < 3:
